@@ -526,6 +526,20 @@ func caseAsm(t *testing.T, tp *simrt.Tape, c *Ctx) (res Result) {
 			res.stat("error-message-varies(not-compared)", 1)
 		}
 	}
+	// thorough tier: fault enumeration for small inputs - truncation and read
+	// error at EVERY byte position, baseline schedule
+	if c.Tier == "thorough" && baseOK && vOK && len(tc.Text) > 0 && len(tc.Text) <= 120 && tp.Draw("asm.enum", 8) == 0 {
+		for k := 0; k <= len(tc.Text); k++ {
+			tr := runAsm(t, tc.Text[:k], simrt.ReaderPlan{ErrAt: -1}, simrt.ReplayTape(nil), cfg)
+			checkAsmRun(&res, tr, &tc, cfgP, fmt.Sprintf("enumerated trunc@%d", k))
+			er := runAsm(t, tc.Text, simrt.ReaderPlan{ErrAt: k}, simrt.MaxTape(), cfg)
+			checkAsmRun(&res, er, &tc, cfgP, fmt.Sprintf("enumerated err@%d", k))
+			if res.Discard != "" {
+				res.Discard = ""
+			}
+		}
+		res.stat("fault.enumerated-truncation-and-error-points", int64(2*(len(tc.Text)+1)))
+	}
 	// instrumentation transparency: the untouched copy, real goroutines
 	if baseOK && vOK && pfOK && len(res.Viol) == 0 && tp.Draw("transparency", 8) == 0 {
 		type pres struct {
